@@ -40,7 +40,8 @@ PROPS = {
                           sat("helpers", "helpers", 600, 8000, ["tests"], shard=300)]),   # every failing struct test of a derived schema is reported, and none that belongs to another schema
     "C03": dict(theorems=["C03_engine_computes_semantics", "C03_leaf_is_coercion", "C03_documented_coercions", "C03_unnamed_fields_untouched", "C03_slice_keeps_length_and_order", "C03_pointer_allocates", "C03_absent_pointer_stays_nil"], cone=ENGINE_CONE + ["Model/Coerce.v", "Proofs/ExactP.v"], rule=ENGINE_RULE,
                 families=[eng("engine", "C03", 1200, 20000, ["dest", "panic"]),
-                          eng("catching", "C05", 600, 10000, ["dest", "panic"])]),   # destinations next to nodes that catch: a leaf holds the coercion of its own input),
+                          eng("catching", "C05", 600, 10000, ["dest", "panic"]),
+                          dict(name="fe", family="fe", profile="fe", quick=700, thorough=10000, tags=["dest", "panic"])]),   # the input representations of the front ends: lists of one entry, blank entries, []-suffixed names   # destinations next to nodes that catch: a leaf holds the coercion of its own input),
     "C04": dict(theorems=["C04_parse_absent_iff", "C04_falsy_values_are_present", "C04_validate_absent_examples", "C04_absent_default", "C04_absent_required", "C04_absent_optional", "C04_slice_absent_required", "C04_slice_absent_optional", "C04_ptr_absent_notnil", "C04_ptr_absent_optional", "C04_engine_computes_semantics"], cone=ENGINE_CONE + ["Proofs/AbsentP.v"], rule=ENGINE_RULE,
                 families=[eng("engine", "C04", 1200, 20000, ["nil", "issues", "dest", "calls", "panic"]),
                           # Required / Optional / Default / Catch called in every order on one schema
@@ -60,7 +61,7 @@ PROPS = {
                 cone=["Model/Objects.v", "Proofs/ObjectsP.v", "Model/Options.v", "Proofs/OptionsP.v"] + ENGINE_CONE,
                 rule="a generated probe execution (schema, data, WithCtxValue / WithIssueFormatter options) is run on freshly cleared pools, after a random history of 1-5 other executions whose results are kept or handed back through CollectMap / CollectList / SanitizeMapAndCollect / SanitizeListAndCollect (GC off, goroutine pinned, so the pools really recycle), and on pools handing out dirty objects (every field junk, CanCatch/Exit set, context values, stale path segments); every issue field, the destination and ctx.Get inside every callback are compared; issue objects of one result must be pairwise distinct; the probe is also compared with the Coq engine; distinct = distinct (schema shape, issue codes, mode)",
                 families=[dict(name="history", family="history", profile="C07", quick=900, thorough=15000,
-                               tags=["isolation", "isolation_dirty", "issue_aliased", "panic", "ctx", "nil", "issues", "dest"])]),
+                               tags=["isolation", "isolation_dirty", "issue_aliased", "panic", "ctx", "nil", "issues", "msg", "dest"])]),
     "C08": dict(theorems=["C08_pooled_objects_have_one_holder", "C08_race_free_partial", "C08_schema_is_read_only", "C08_each_call_like_running_alone"],
                 cone=["Model/Threads.v", "Proofs/ThreadsP.v", "Model/Objects.v", "Proofs/ObjectsP.v"] + ENGINE_CONE,
                 level_text="PARTIAL proof: Coq theorems for the ownership logic (pooled objects have one holder under every interleaving; disciplined events never race; schema and input are never written; each call's result is a function of its own arguments); the Go memory model, sync.Pool's atomicity and the runtime are trusted; a -race stress on shared schema objects validates the footprint model on every run",
@@ -87,7 +88,9 @@ PROPS = {
                 rule="exhaustive: every catalogue entry (every built-in test of every type, plain and negated, required / not_nil / coerce per type, front-end decode failures) x {no language, en, es, unknown language} plus test-level Message, execution-level formatter, both, and a formatter that sets nothing, after an i18n re-installation; then random (entry, language, test message, execution formatter) combinations; the finite theorems are re-proved against the tables dumped from the running code; distinct = distinct (entry, which formatters are present)",
                 families=[sat("messages", "messages", 1500, 12000, ["message", "described", "described_custom"]),
                           eng("engine", "C11", 700, 8000, ["params", "dtype", "msg", "panic"]),
-                          sat("helpers", "helpers", 500, 6000, ["fields"], shard=300)]),   # the issue names the type of the node that is there now, also on schemas derived with Pick/Omit/Extend/Merge
+                          sat("helpers", "helpers", 500, 6000, ["fields"], shard=300),
+                          # after any history of executions and Collect / Sanitize helpers every issue is still its own object, described by its own test
+                          dict(name="history", family="history", profile="C07", quick=400, thorough=5000, tags=["issue_aliased", "issues", "dtype", "params", "msg", "panic"])]),   # the issue names the type of the node that is there now, also on schemas derived with Pick/Omit/Extend/Merge
     "C13": dict(theorems=["C13_modes_agree", "C13_engine_modes_agree", "C13_default_coercers_are_identity_on_typed_values", "C13_premise_is_satisfiable", "C13_engine_computes_semantics"], cone=ENGINE_CONE + ["Proofs/ModesP.v", "Model/Coerce.v"],
                 rule="a generated schema (no Preprocess, no custom coercers; tests, Catch, Default and PostTransforms at every level) and a generated fully populated value of its destination type (no zero leaf, no empty slice, no nil pointer); the value is validated in place and, presented as the plain map it would be decoded from, parsed into a fresh destination; issues (path, code, type, message) and final values are compared with each other (model-free; with PostTransforms only when neither run reports an issue, because their gating on the execution-wide error state makes the result depend on each run's field visit order - the recorded C09 finding) and both executions with the Coq engine under their own visit orders; distinct = distinct (schema shape, issue codes, mode)",
                 families=[dict(name="modes", family="modes", profile="C13", quick=700, thorough=12000, tags=["modes_agree", "panic", "nil", "issues", "dest"])]),
